@@ -122,6 +122,26 @@ func TestGovcBoundedC06Groupings(t *testing.T) {
 				}
 			}
 		}
+		// (3) a definition is not a use: a grouping defined inside grouping k -- at any depth -- may
+		// use k; k does not use itself, and a real cycle through the inner grouping is still an error
+		evals++
+		ms = NewModules()
+		if err := ms.Parse(`module d { namespace "urn:d"; prefix d;
+  grouping k { container c { leaf a { type string; } grouping inner { container viak { uses k; } } container plain { grouping inner { leaf b { type string; } } uses inner; } } }
+  container top { uses k; } }`, "d.yang"); err != nil {
+			fmt.Printf("GOVC-FAIL name=c06-grouping-expansion fixed case does not parse: %v\n", err)
+		} else if errs := ms.Process(); len(errs) > 0 {
+			fmt.Printf("GOVC-FAIL name=c06-grouping-expansion a grouping defined inside grouping k uses k, nothing uses the inner grouping: %v\n", errs)
+		} else if e := ToEntry(ms.Modules["d"]).Dir["top"]; e == nil || e.Dir["c"] == nil || e.Dir["c"].Dir["plain"] == nil || e.Dir["c"].Dir["plain"].Dir["b"] == nil {
+			fmt.Printf("GOVC-FAIL name=c06-grouping-expansion the use of k is not expanded\n")
+		}
+		evals++
+		ms = NewModules()
+		if err := ms.Parse(`module d { namespace "urn:d"; prefix d; grouping k { container c { grouping inner { uses k; } uses inner; } } container top { uses k; } }`, "d.yang"); err == nil {
+			if errs := ms.Process(); len(errs) == 0 {
+				fmt.Printf("GOVC-FAIL name=c06-grouping-errors k uses an inner grouping that uses k: accepted\n")
+			}
+		}
 		evals++
 		ms = NewModules()
 		for n, s := range map[string]string{
